@@ -36,7 +36,9 @@ RULE = ("related pairs generated together: (compound, ρ, λ) with k·ρ; c·cou
         "different isotopes of one element; 300 (quick) compounds holding the same nuclide from the public and from "
         "a private table with revised records in 8..10 orders/groupings/sums; 200 (quick) compounds given as "
         "2..4 weighted parts whose text forms coincide, parts forwards / backwards / summed; "
-        "a case is non-trivial when the compound has "
+        "D2O_sld / D2O_match of every case by energy= vs wavelength=; natural_density recomputed from the atoms' masses "
+        "(keyword and '@..n' spelling); 60 (quick) compounds of a private table whose atoms carry user-defined "
+        "neutron records, vector vs scalars vs energies; a case is non-trivial when the compound has "
         ">= 2 distinct atoms or a nested group; distinct by canonical input")
 
 
@@ -181,6 +183,25 @@ def evaluate_case(pt, case):
     out["entry:neutron_sld(energy)"] = _sld3(nsf.neutron_sld(f, energy=e))
     out["entry:Formula.neutron_sld(wavelength)"] = _sld3(f.neutron_sld(wavelength=w))
     out["entry:Formula.neutron_sld(energy)"] = _sld3(f.neutron_sld(energy=e))
+    # the D2O contrast route takes the same beam keywords: by wavelength and by the equivalent energy
+    vf, df = case.get("vf", 0.75), case.get("df", 0.25)
+    if rho > 0 and f.mass > 0:
+        for kind, beam in (("wavelength", dict(wavelength=w)), ("energy", dict(energy=e))):
+            try:
+                v = nsf.D2O_sld(f, volume_fraction=vf, D2O_fraction=df, **beam)
+                m = nsf.D2O_match(f, **beam)
+                out["d2o:" + kind] = "missing" if v is None or v[0] is None else \
+                    [float(x) for x in v] + [float(m[0]), float(m[1])]
+            except Exception as ex:  # noqa
+                out["d2o:" + kind] = "raises %s: %s" % (type(ex).__name__, ex)
+    # the natural density computed here from the atoms' own masses (every isotope replaced by its natural element,
+    # charges kept) - not from Formula.natural_density
+    nd_indep = None
+    me = float(base.me_exact())
+    nat = sum(n_ * (pt.elements[a_[0]].mass - a_[2] * me) for a_, n_ in atoms)
+    if nat > 0 and f.mass > 0:
+        out["natural-independent"] = scalar(pt, _natural(pt, s, rho * nat / f.mass), w)
+        nd_indep = float(rho * nat / f.mass)
     ws = case["ws"]
     if all(float(x) == int(x) for x in ws):
         ints = [int(x) for x in ws]
@@ -210,6 +231,9 @@ def evaluate_case(pt, case):
             mine.density = rho * 3.0
             mine += _formula("Xe")
             out["string-after-modification"] = nc.scat_tuple(nsf.neutron_scattering(text, density=rho, wavelength=w))
+            if nd_indep is not None and "e" not in repr(nd_indep) and "@" not in text:
+                out["natural-independent-string"] = nc.scat_tuple(nsf.neutron_scattering(
+                    "%s@%rn" % (text, nd_indep), wavelength=w))
     except Exception as e:  # noqa
         out["string-after-modification"] = "raises " + type(e).__name__
     return f, atoms, N, out
@@ -288,6 +312,11 @@ def judge(run, pt, case, replies):
     rel.append(("Hill reordering", b, out["hill"], N))
     rel.append(("energy= vs wavelength=", b, out["energy"], N))
     rel.append(("natural_density vs density", b, out["natural"], N))
+    if "natural-independent" in out:
+        rel.append(("natural_density vs density (natural_density = density x natural mass / actual mass from the "
+                    "atoms' masses)", b, out["natural-independent"], N))
+    if "natural-independent-string" in out:
+        rel.append(("natural_density vs density (the '@<natural density>n' spelling)", b, out["natural-independent-string"], N))
     rel.append(("natural_density= keyword on a Formula object with its own density", b, out["natural-keyword-on-object"], N))
     rel.append(("density= keyword on a Formula object with its own density", b, out["density-keyword-on-object"], N))
     if "string-after-modification" in out:
@@ -308,6 +337,16 @@ def judge(run, pt, case, replies):
         if not ok:
             run.violation("invariance broken: %s differs from neutron_scattering(wavelength=)" % name[6:], inp,
                           relation="energy= vs wavelength=", site="entry-point", got=str(got3), expected=str(want3))
+    dw, de = out.get("d2o:wavelength"), out.get("d2o:energy")
+    if dw is not None or de is not None:
+        if isinstance(dw, str) or isinstance(de, str):
+            okd = dw == de or (isinstance(dw, str) and isinstance(de, str) and dw[:6] == de[:6] == "raises")
+        else:
+            tot = nc.sigma_total_xs(b) if not isinstance(b, str) else 0.0
+            okd = all(close(x, y, rel=1e-7, abs_=max(1e-12, 1e-10 * nc.re_scale(N, tot))) for x, y in zip(dw, de))
+        if not okd:
+            run.violation("invariance broken: D2O_sld / D2O_match with energy= differ from the equivalent wavelength=: "
+                          "%r vs %r" % (de, dw), inp, relation="energy= vs wavelength=", site="d2o-route")
     if out.get("argument-modified"):
         run.violation("neutron_scattering modified the wavelength array it was given", inp,
                       relation="vector entry", site="argument-modified")
@@ -594,6 +633,72 @@ def stage_weighted_parts(run, pt, pools, n):
                 break
 
 
+# --------------------------------------------------------------------------- user-defined neutron records
+
+def stage_user_records(run, pt, pools, n):
+    """compounds of a private table in which some atoms carry a user's own neutron record (a subclass of
+    nsf.Neutron overriding the per-wavelength method `scattering_by_wavelength`): a vector of wavelengths still
+    returns the scalar results entry by entry, and energy= agrees with the equivalent wavelength="""
+    import numpy as np
+    from periodictable import core, mass, density, nsf
+    from periodictable.formulas import formula
+    rng = run.rng
+    try:
+        class UserNeutron(nsf.Neutron):
+            def scattering_by_wavelength(self, wavelength):
+                w = wavelength if np.isscalar(wavelength) else np.asarray(wavelength, dtype=float)
+                return self.b_c_complex * (1 + 0.1 * w), self.total * (1 + 0.05 * w)
+
+        core.PRIVATE_TABLES.pop("ptv-neutron-userrec", None)
+        T = core.PeriodicTable("ptv-neutron-userrec")
+        mass.init(T)
+        density.init(T)
+        nsf.init(T)
+        mine = [T.Fe, T.H[2], T.Ni[58], T.O, T.Si]
+        for a in mine:
+            rec = UserNeutron()
+            rec.__dict__.update(a.neutron.__dict__)
+            a.neutron = rec
+    except Exception as e:  # noqa
+        run.violation("a private table with user-defined neutron records cannot be set up: %s: %s" % (type(e).__name__, e),
+                      dict(kind="user-records"), relation="vector entry", site="user-records")
+        return
+    others = [T.H, T.C, T.N, T.Al, T.Gd, T.Ca, T.Cl]
+    for i in range(n):
+        atoms = rng.sample(mine, rng.randint(1, 3)) + rng.sample(others, rng.randint(0, 2))
+        rng.shuffle(atoms)
+        comp = [(float(rng.randint(1, 6)), a) for a in atoms]
+        rho = nc.gen_density(rng)
+        ws = [nc.gen_wavelength(rng, pools) for _ in range(rng.randint(1, 4))]
+        inp = dict(kind="user-records", atoms=[[c, str(a)] for c, a in comp], density=rho, ws=ws)
+        run.count(key=("user-records", repr(inp["atoms"]), rho, repr(ws)), nontrivial=True, tag="user-records",
+                  sample=inp if i < 1 else None)
+        try:
+            f = formula(tuple(comp), density=rho)
+            vec = nc.scat_vectors(nsf.neutron_scattering(f, wavelength=np.array(ws)), len(ws))
+            sc = [nc.scat_tuple(nsf.neutron_scattering(f, wavelength=x)) for x in ws]
+            en = [nc.scat_tuple(nsf.neutron_scattering(f, energy=float(nsf.neutron_energy(x)))) for x in ws]
+            from periodictable.constants import avogadro_number
+            N = sum(f.atoms.values()) / (f.mass / rho / avogadro_number * 1e24)
+        except Exception as e:  # noqa
+            run.violation("a compound with user-defined neutron records raises %s: %s" % (type(e).__name__, e), inp,
+                          relation="vector entry", site="user-records")
+            continue
+        if isinstance(vec, str):
+            vec = [vec] * len(ws)
+        for j in range(len(ws)):
+            if not nc.scat_close(sc[j], vec[j], N):
+                run.violation("invariance broken: vector entry %d differs from the scalar call at that wavelength for a compound "
+                              "whose atoms carry user-defined neutron records: %r vs %r" % (j, vec[j], sc[j]), inp,
+                              relation="vector entry", site="user-records")
+                break
+            if not nc.scat_close(sc[j], en[j], N):
+                run.violation("invariance broken: energy= differs from the equivalent wavelength= for a compound whose atoms "
+                              "carry user-defined neutron records: %r vs %r" % (en[j], sc[j]), inp,
+                              relation="energy= vs wavelength=", site="user-records")
+                break
+
+
 def run(run: Run) -> int:
     pt = import_repo()
     run.prove(generated=["Constants", "NeutronConsts"])
@@ -612,6 +717,7 @@ def run(run: Run) -> int:
     stage_no_density(run, pt, pools, 150 if quick else 5000)
     stage_two_tables(run, pt, pools, 300 if quick else 20000)
     stage_weighted_parts(run, pt, pools, 200 if quick else 10000)
+    stage_user_records(run, pt, pools, 60 if quick else 3000)
     return run.finish(RULE, assumptions=[
         "floating-point rounding: relations are compared at 1e-9 relative (incoherent terms with the cancellation-aware rule of DESIGN 4.5)",
         "numpy broadcasting is modelled as the pointwise map (vector_is_map is a theorem about that model; the correspondence compares the real vector call with it)"])
@@ -656,6 +762,9 @@ def replay(data) -> int:
             print("  parts as listed  :", fwd)
             print("  parts reversed   :", rev)
             print("  summed formula   :", direct)
+            continue
+        if inp.get("kind") == "user-records":
+            print("  (rerun the check to reproduce: stage_user_records)")
             continue
         if inp.get("kind") == "no-density":
             s = _fix(inp["struct"])
